@@ -29,7 +29,7 @@ import types
 from fractions import Fraction
 from pathlib import Path
 
-from extract import module_state, pdf_variants
+from extract import module_state, pdf_variants, purity_inventory
 from harness import c19_gen, c19_pdf, docs
 from vlib import sx
 from vlib.framework import PropCheck
@@ -83,6 +83,8 @@ def add_pdfdoc(sec, document, wire, zoom, variant, has_html, sel, meta, tags=())
     args = (zoom, variant == 'pdf/ua-1', has_html, sel_wire, wire)
     n_pages = len(wire) if sel in (None, 'all') else len(sel)
     nontrivial = n_pages > 0 and zoom != 1
+    if text.startswith('err:'):
+        tags = list(tags) + ['error-' + text[4:]]
     sec.add(sx.line('pdfdoc', *args), text, meta=dict(meta, mode='text'), nontrivial=nontrivial, tags=tags)
     sec.add(sx.line('pdfdocx', *args), exact, meta=dict(meta, mode='exact'), nontrivial=nontrivial, tags=tags)
 
@@ -454,6 +456,63 @@ def cache_items(cache, candidates):
     return [(key, cache[key]) for key in sorted(candidates) if key in cache]
 
 
+def image_branch_tags(world, resources, calls, values, entries):
+    """Which branches of the model (`getImage` / `decode` / `makeRaster`) a history went through, read off the
+    implementation's answers and the inputs."""
+    tags = set()
+    table = dict(resources)
+    seen = set()
+    for (url, forced, orientation), value in zip(calls, values):
+        key = (url, str(orientation))
+        descriptor = table.get(url, ('raises',))
+        if key in seen and not value.startswith('err'):
+            tags.add('hit')
+        else:
+            tags.add({'raises': 'miss-fetcher-raises', 'malformed': 'miss-keyerror', 'ok': 'miss-decoded'}[descriptor[0]])
+        if not value.startswith('err'):
+            seen.add(key)
+        if descriptor[0] == 'ok':
+            mime = forced or descriptor[1]
+            blob = world.blobs[descriptor[3]]
+            if value.startswith('svg'):
+                tags.add('svg-by-mime' if mime == 'image/svg+xml' else 'svg-last-chance')
+            elif value.startswith('raster'):
+                tags.add('raster-after-failed-svg' if mime == 'image/svg+xml' else 'raster')
+                tags.add('source-file' if ':file=' in value else 'source-cached')
+                tags.add('format-' + value.split(':')[-3])
+            elif value == 'none':
+                tags.add('undecodable-svg-mime' if mime == 'image/svg+xml' else 'undecodable')
+            if blob[2] and orientation == 'from-image':
+                tags.add('exif-transposed')
+    for entry in entries:
+        if '=bytes=orig' in entry:
+            tags.add('bytes-original')
+        elif '=bytes=reenc' in entry:
+            tags.add('bytes-reencoded-' + entry.split(':')[-2])
+    return sorted(tags)
+
+
+EXPECTED_TAGS = {
+    'image-cache': ['hit', 'miss-fetcher-raises', 'miss-keyerror', 'miss-decoded', 'svg-by-mime', 'svg-last-chance',
+                    'raster', 'raster-after-failed-svg', 'source-file', 'source-cached', 'format-JPEG', 'format-PNG',
+                    'undecodable', 'undecodable-svg-mime', 'exif-transposed', 'bytes-original', 'bytes-reencoded-same',
+                    'bytes-reencoded-rot', 'bytes-reencoded-exif', 'disk', 'dict'],
+    'pdf-zoom-docs': ['bleed', 'bleed-capped', 'internal-links', 'bookmarks', 'mixed-sizes', 'ua', 'plain', 'copy',
+                      'whole'],
+    'pdf-zoom-synthetic': ['adversarial', 'bleed-capped', 'copy', 'ua', 'error-ZeroDivisionError',
+                           'error-AssertionError', 'error-AttributeError'],
+    'write-sinks': ['none', 'fileobj', 'path', 'variant', 'no-variant', 'real-generate', 'error-KeyError'],
+    'disk-cache': ['disciplined', 'mixed-kinds'],
+    'write-state': ['stale-annotation', 'all-current', 'xobject', 'PNG', 'JPEG'],
+    'bookmark-tree': ['ok', 'assert'],
+    'render-state': ['renders1', 'renders2', 'renders3', 'renders4', 'font-faces', 'caller-cache', 'folder-cache',
+                     'raw-sheet'],
+    'history (validation)': ['process-vs-process', 'same-html-object', 'write-twice', 'snapshot', 'cache-dict',
+                             'cache-disk', 'cache-none', 'shared-font-config', 'fresh-font-config', 'repeat-job',
+                             'permutation'],
+}
+
+
 def section_images(run, world):
     from weasyprint.document import DiskCache
     sec = run.section(
@@ -511,7 +570,178 @@ def section_images(run, world):
         keys = [(url, str(o)) for url, _, o in calls]
         sec.add(line, out, meta={'resources': resources, 'options': options, 'calls': calls, 'disk': use_disk},
                 nontrivial=len(set(keys)) < len(keys),
-                tags=['disk' if use_disk else 'dict'] + sorted({v.split(':')[0].split('=')[0] for v in values}))
+                tags=['disk' if use_disk else 'dict'] + image_branch_tags(world, resources, calls, values, entries))
+
+
+class _Obj:
+    """A non-bytes cache value."""
+
+    def __init__(self, number):
+        self.number = number
+
+
+def run_disk_ops(ops):
+    """Operations on a real DiskCache -> what `diskops` prints."""
+    from weasyprint.document import DiskCache
+    folder = tempfile.mkdtemp(prefix='c19disk')
+    cache = DiskCache(folder)
+    out = []
+    try:
+        for op in ops:
+            if op[0] == 'set':
+                if op[2] == 'b':
+                    cache[op[1]] = b'payload-%d' % op[3]
+                elif op[2] == 'o':
+                    cache[op[1]] = _Obj(op[3])
+                else:
+                    cache[op[1]] = None
+            elif op[0] == 'get':
+                try:
+                    value = cache[op[1]]
+                except Exception as exc:  # noqa: BLE001
+                    out.append(f'err:{type(exc).__name__}')
+                    continue
+                if value is None:
+                    out.append('none')
+                elif isinstance(value, bytes):
+                    out.append('bytes:' + value.decode().split('-')[1])
+                else:
+                    out.append(f'object:{value.number}')
+            else:
+                out.append(str(op[1] in cache).lower())
+    finally:
+        del cache
+        for child in Path(folder).glob('*'):
+            child.unlink()
+        if Path(folder).exists():
+            Path(folder).rmdir()
+    return ' '.join(out)
+
+
+def section_disk_cache(run):
+    sec = run.section(
+        'disk-cache',
+        'random sequences of 1..14 operations (store bytes / an object / None, read, membership) on a real DiskCache, '
+        'disciplined (a key only ever holds one kind of value) or not; non-trivial = some key is stored twice')
+    for index in range(run.n(300, 6000)):
+        keys = [f'k{i}' for i in range(run.rng.randrange(1, 5))]
+        disciplined = index % 2 == 0
+        kind_of = {key: run.rng.choice(['b', 'o']) for key in keys}
+        ops, stored = [], []
+        for _ in range(run.rng.randrange(1, 15)):
+            key = run.rng.choice(keys)
+            roll = run.rng.random()
+            if roll < 0.45:
+                kind = kind_of[key] if disciplined else run.rng.choice(['b', 'o', 'none'])
+                if kind == 'none' or (kind == 'o' and run.rng.random() < 0.15):
+                    ops.append(['set', key, 'none'])
+                else:
+                    ops.append(['set', key, kind, run.rng.randrange(1, 99)])
+                stored.append(key)
+            elif roll < 0.8:
+                ops.append(['get', run.rng.choice(keys + ['absent'])])
+            else:
+                ops.append(['has', run.rng.choice(keys + ['absent'])])
+        sec.add(sx.line('diskops', *ops), run_disk_ops(ops), meta={'ops': ops},
+                nontrivial=len(set(stored)) < len(stored), tags=['disciplined' if disciplined else 'mixed-kinds'])
+
+
+# ---------------------------------------------------------------------------------------------- write state
+
+def run_link_writes(factory, abstract, selections):
+    """Successive real write_pdf calls of selections of ONE set of synthetic pages (the link boxes persist) -> per
+    write, which link boxes of the written pages hold an annotation, and of which write (`box:write`)."""
+    pages = make_pages(factory, abstract)
+    box_number = {}
+    for page in pages:
+        for _, _, _, box in page.links:
+            box_number[id(box)] = len(box_number) + 1
+    owner = {}          # id(annotation object) -> number of the write that created it
+    keep = []
+    out, wire = [], []
+    for number, selection in enumerate(selections, start=1):
+        chosen = [pages[i] for i in selection]
+        document = factory.document(chosen)
+        captured = {}
+
+        def finisher(doc, pdf):
+            captured['pdf'] = pdf
+        try:
+            document.write_pdf(finisher=finisher)
+        except Exception as exc:  # noqa: BLE001
+            out.append(f'err:{type(exc).__name__}')
+            wire.append([[], []])
+            continue
+        for obj in captured['pdf'].objects:
+            if isinstance(obj, dict) and obj.get('Subtype') == '/Link' and id(obj) not in owner:
+                owner[id(obj)] = number
+                keep.append(obj)
+        tags = []
+        links = []
+        for page in chosen:
+            for kind, target, _, box in page.links:
+                links.append([box_number[id(box)], kind, target])
+                annotation = getattr(box, 'link_annotation', None)
+                if annotation:
+                    tags.append(f'{box_number[id(box)]}:{owner.get(id(annotation), "?")}')
+        names = []
+        for page in chosen:
+            for name in page.anchors:
+                if name not in names:
+                    names.append(name)
+        out.append(','.join(tags))
+        wire.append([names, links])
+    return ' | '.join(out), wire
+
+
+def run_xobjects(world, fmt, targets):
+    """Successive real get_x_object calls on one RasterImage (64 x 32) -> `W,H,generation,dataW,dataH` per call."""
+    from PIL import Image
+    from weasyprint import DEFAULT_OPTIONS
+    from weasyprint.images import get_image_from_uri
+    data = world.blobs['png' if fmt == 'PNG' else 'jpg'][0]
+    options = dict(DEFAULT_OPTIONS, dpi=96)
+    image = get_image_from_uri({}, lambda url: {'string': data, 'mime_type': 'image/png'}, options, 'http://t/x',
+                               orientation='none')
+    generation, seen = 0, image.image_data
+    out = []
+    for target in targets:
+        ratio = 1 if target is None else target[0] / image.width
+        stream = image.get_x_object(True, ratio)
+        if image.image_data is not seen:
+            generation, seen = generation + 1, image.image_data
+        stored = Image.open(io.BytesIO(image.image_data.data))
+        out.append(f'{stream.extra["Width"]},{stream.extra["Height"]},{generation},{stored.width},{stored.height}')
+    return ' '.join(out)
+
+
+def section_write_state(run, factory, world):
+    sec = run.section(
+        'write-state',
+        'what a write leaves behind: (a) sequences of 2..5 real write_pdf calls over selections of one set of '
+        'synthetic pages: which link boxes hold an annotation afterwards and of which write; (b) sequences of real '
+        'RasterImage.get_x_object calls (ratio 1 and thumbnails) on one image: declared size, stored data size, how '
+        'often image_data was replaced; non-trivial = a later write sees state of an earlier one')
+    for _ in range(run.n(60, 1500)):
+        abstract = c19_gen.gen_synthetic_pages(run.rng, False, n_pages=run.rng.randrange(1, 5))
+        n = len(abstract)
+        selections = [sorted(run.rng.sample(range(n), run.rng.randrange(0, n + 1)))
+                      for _ in range(run.rng.randrange(2, 6))]
+        if run.rng.random() < 0.6:
+            selections[0] = list(range(n))      # the whole document first: later subsets see its annotations
+        out, wire = run_link_writes(factory, abstract, selections)
+        stale = any(tag.split(':')[1] != str(i + 1) for i, part in enumerate(out.split(' | '))
+                    for tag in part.split(',') if ':' in tag)
+        sec.add(sx.line('writes', *wire), out, meta={'abstract': json_abstract(abstract), 'selections': selections},
+                nontrivial=stale, tags=['links', 'stale-annotation' if stale else 'all-current'])
+    sizes = [None, None, (32, 16), (16, 8), (8, 4), (128, 64)]     # (64, 32) would be ratio 1, i.e. None
+    for _ in range(run.n(40, 600)):
+        fmt = run.rng.choice(['PNG', 'JPEG'])
+        targets = [run.rng.choice(sizes) for _ in range(run.rng.randrange(1, 6))]
+        out = docs.outcome(lambda: run_xobjects(world, fmt, targets))
+        sec.add(sx.line('xobjects', 64, 32, *['none' if t is None else list(t) for t in targets]), out,
+                meta={'format': fmt, 'targets': targets}, nontrivial=sum(t is not None for t in targets) >= 2,
+                tags=['xobject', fmt])
 
 
 # ---------------------------------------------------------------------------------------------- write_pdf sinks
@@ -658,7 +888,7 @@ def section_sinks(run):
         sec.add(sx.line('sinks', wire_sink_options(options), finisher, target), out,
                 meta={'options': repr(options), 'finisher': finisher, 'target': target, 'stub': True},
                 nontrivial=bool(variant) and variant in VARIANTS and bool(VARIANTS[variant][1]),
-                tags=[target, 'variant' if variant else 'no-variant'])
+                tags=[target, 'variant' if variant else 'no-variant'] + (['error-' + out[4:]] if out.startswith('err:') else []))
     real = SinkRecorder(False)
     sec2 = run.section(
         'three-sinks-bytes (validation)',
@@ -1010,8 +1240,13 @@ def section_render_state(run):
         'render) of everything its LayoutContext holds; non-trivial = at least two renders')
     for _ in range(run.n(40, 400)):
         wire = gen_render_history(run.rng)
+        tags = [f'renders{len(wire)}']
+        tags += ['font-faces'] if any(w[4] for w in wire) else []
+        tags += ['caller-cache'] if any(isinstance(w[2], list) for w in wire) else []
+        tags += ['folder-cache'] if any(w[2] == 'folder' for w in wire) else []
+        tags += ['raw-sheet'] if any(isinstance(w[3], list) and 'raw' in w[3] for w in wire) else []
         sec.add(sx.line('renders', *wire), run_render_history(wire), meta={'history': wire},
-                nontrivial=len(wire) >= 2, tags=[f'renders{len(wire)}'])
+                nontrivial=len(wire) >= 2, tags=tags)
 
 
 # ---------------------------------------------------------------------------------------------- history (validation)
@@ -1043,6 +1278,9 @@ def run_children(jobs, hashseeds, rng=None):
     """The same jobs in several fresh interpreters at once, one per hash seed (each in its own job order when `rng`
     is given) -> [(hashseed, results by job index)]."""
     from harness import c19_history
+    hashseeds = list(hashseeds)
+    if len(hashseeds) > 4:      # at most four interpreters at a time
+        return run_children(jobs, hashseeds[:4], rng) + run_children(jobs, hashseeds[4:], rng)
     started = []
     for hashseed in hashseeds:
         order = list(range(len(jobs)))
@@ -1112,7 +1350,7 @@ def section_history(run):
         'SEARCH/VALIDATION, not a model correspondence: random documents (lists, tables, flex, grid, floats, images, '
         'target-counter, running strings, footnotes, columns, quotes, counter styles, inline <svg> and SVG images with '
         '<use x y> / inherited presentation attributes / gradients / clip paths / markers, text with two or three '
-        'decoration lines, …; every job pool holds each of the state-carrying features) rendered (a) in 8 / 15 fresh '
+        'decoration lines, …; every job pool holds each of the state-carrying features) rendered (a) in 6 / 15 fresh '
         'processes at once, each under its own PYTHONHASHSEED and job order, (b) twice from one HTML object, each '
         'Document written twice, (c) in histories of 2..6 '
         'renders that share or do not share the HTML object, CSS objects, the font configuration, the image cache '
@@ -1120,10 +1358,11 @@ def section_history(run):
         'fixed identifier and SOURCE_DATE_EPOCH) with the same job rendered alone-in-order in a FRESH PROCESS under '
         'another PYTHONHASHSEED; caller-owned objects are deep-snapshotted before / after; the driver only echoes the '
         'reference; non-trivial = the render is not the first of its history')
-    jobs = make_history_jobs(run.rng, run.n(8, 70))
-    # set / dict iteration order differs between hash seeds with probability ~1/2 per pair: 8 (16) fresh processes,
-    # started together, each with its own seed and its own job order
-    seeds = [run.rng.randrange(1, 2 ** 31) for _ in range(run.n(5, 12))] + [0, 1, 4242]
+    jobs = make_history_jobs(run.rng, run.n(8, 50))
+    # set / dict iteration order differs between hash seeds with probability ~1/2 per pair: 6 (15) fresh processes,
+    # four at a time, each with its own seed and its own job order (the static side of the same question is
+    # Gen.Purity.orderSites; `search` asks 8 more seeds)
+    seeds = [run.rng.randrange(1, 2 ** 31) for _ in range(run.n(3, 12))] + [0, 1, 4242]
     references = run_children(jobs, seeds, run.rng)
     reference = references[0][1]
     nonce = [0]
@@ -1135,7 +1374,10 @@ def section_history(run):
                     meta={'validation': 'process', 'job': jobs[index], 'hashseed': hashseed,
                           'reference_hashseed': references[0][0]}, nontrivial=True, tags=['process-vs-process'])
     # every job twice from ONE HTML object (and each Document written twice), in an environment of its own
+    stateful = len(c19_history.STATEFUL_FEATURES)
     for index, job in enumerate(jobs):
+        if not run.thorough and index > stateful:      # quick: the jobs with state-carrying features and one more
+            break
         env = c19_history.fresh_env()
         html = c19_history.make_html(env, job['html'])
         sheets = c19_history.make_sheets(env, job)
@@ -1158,8 +1400,8 @@ def section_history(run):
                     sec.add(sx.line('echo', result['pdf'], nonce[0]), result['pdf_again'],
                             meta={'validation': 'write-twice', 'job': job, 'how': how}, nontrivial=True,
                             tags=['write-twice'])
-    for _ in range(run.n(10, 110)):
-        length = run.rng.randrange(2, 7)
+    for _ in range(run.n(6, 80)):
+        length = run.rng.randrange(2, run.n(6, 7))
         share_env = run.rng.random() < 0.6
         env = c19_history.fresh_env() if share_env else None
         cache_kind = run.rng.choice(['none', 'dict', 'dict', 'disk'])
@@ -1229,13 +1471,81 @@ def section_history(run):
                 child.unlink()
             if Path(folder).exists():
                 Path(folder).rmdir()
+    # every order of three jobs in one shared environment (font configuration, image cache): the result of a job must
+    # not depend on which jobs ran before it
+    plain = [i for i, job in enumerate(jobs) if 'dpi' not in job['options']]
+    for _ in range(run.n(1, 8)):
+        if len(plain) < 3:
+            break
+        triple = run.rng.sample(plain, 3)
+        orders = list(itertools.permutations(triple)) if run.thorough else [tuple(triple), tuple(reversed(triple))]
+        for order in orders:
+            env, cache = c19_history.fresh_env(), {}
+            same_images = len({jobs[i]['image_set'] for i in order}) == 1
+            for position, index in enumerate(order):
+                job = jobs[index]
+                try:
+                    result = c19_history.run_job(job, env=env, cache=cache if same_images else None)
+                except Exception as exc:  # noqa: BLE001
+                    result = {'error': f'{type(exc).__name__}: {exc}'}
+                nonce[0] += 1
+                sec.add(sx.line('echo', history_signature(reference[index]), nonce[0]), history_signature(result),
+                        meta={'validation': 'history', 'job': job,
+                              'how': {'order': list(order), 'position': position, 'shared_cache': same_images}},
+                        nontrivial=position > 0, tags=['permutation'])
+
+
+# ---------------------------------------------------------------------------------------------- module state
+
+def module_state_snapshot():
+    """{(file, name): digest} of every process-lifetime object of the generated inventory (Gen.Purity.moduleObjects),
+    C-library handles and the command line module excepted."""
+    import importlib
+    from harness import c19_history
+    module_objects = purity_inventory.scan()[0]
+    out = {}
+    for rel, name, kind in module_objects:
+        if rel in ('text/ffi.py', '__main__.py'):
+            continue
+        module_name = 'weasyprint.' + rel[:-3].replace('/', '.')
+        if module_name.endswith('.__init__'):
+            module_name = module_name[:-len('.__init__')]
+        try:
+            value = getattr(importlib.import_module(module_name), name)
+        except Exception as exc:  # noqa: BLE001
+            out[(rel, name)] = f'unreadable:{type(exc).__name__}'
+            continue
+        out[(rel, name)] = hashlib.md5(c19_history.deep_fingerprint(value, depth=9).encode()).hexdigest()
+    return out
+
+
+def section_module_state(run, before):
+    sec = run.section(
+        'module-state (validation)',
+        'SEARCH/VALIDATION: deep snapshot of every process-lifetime object of the generated inventory '
+        '(Gen.Purity.moduleObjects: constant tables, import-time registries, UA style sheets and counter styles) taken '
+        'before the first and after the last render of this run (thousands of renders, writes, copies, cache '
+        'histories): nothing may have changed; the driver echoes `unchanged`')
+    after = module_state_snapshot()
+    for number, key in enumerate(sorted(set(before) | set(after))):
+        same = before.get(key) == after.get(key)
+        sec.add(sx.line('echo', 'unchanged', number), 'unchanged' if same else f'mutated:{key[0]}:{key[1]}',
+                meta={'validation': 'module-state', 'object': list(key)}, nontrivial=True,
+                tags=[key[0].split('/')[0]])
 
 
 # ---------------------------------------------------------------------------------------------- property oracles
 
+class ReaderError(Exception):
+    """This harness cannot read back what was written (not an exception of the implementation)."""
+
+
 def exact_tree(document, zoom, variant=None):
-    data, pdf = _write_captured(document, float(zoom), pdf_variant=variant)
-    return c19_pdf.exact_from_pdf(pdf, document, float(zoom) * 0.75), c19_pdf.parse_pdf(data)
+    data, pdf = _write_captured(document, float(zoom), pdf_variant=variant)     # implementation exceptions propagate
+    try:
+        return c19_pdf.exact_from_pdf(pdf, document, float(zoom) * 0.75), c19_pdf.parse_pdf(data)
+    except Exception as exc:  # noqa: BLE001
+        raise ReaderError(f'{type(exc).__name__}: {exc}')
 
 
 def _close(a, b, exact):
@@ -1252,6 +1562,8 @@ def zoom_clause(document, zoom, exact=True):
     try:
         (pages1, names1, outlines1), text1 = exact_tree(document, 1)
         (pagesz, namesz, outlinesz), textz = exact_tree(document, zoom)
+    except ReaderError:
+        return None      # e.g. the PDF is not written uncompressed any more: no statement about coordinates possible
     except Exception as exc:  # noqa: BLE001
         return f'write_pdf raised {type(exc).__name__}: {exc}'
     # the two `cm` operators at the head of every page stream (written with 6 decimals)
@@ -1313,6 +1625,8 @@ def copy_clause(document, sel, zoom=1):
         (pages_all, _, _), _ = exact_tree(document, zoom)
         subset = document.copy('all' if sel == 'all' else [document.pages[i] for i in sel])
         (pages, names, _), _ = exact_tree(subset, zoom)
+    except ReaderError:
+        return None
     except Exception as exc:  # noqa: BLE001
         return f'copy / write_pdf raised {type(exc).__name__}: {exc}'
     chosen = list(range(len(document.pages))) if sel == 'all' else list(sel)
@@ -1381,7 +1695,7 @@ def finding_dpi_rewrite():
     by its thumbnail; the second re-encodes the thumbnail)."""
     from harness import c19_history
     os.environ['SOURCE_DATE_EPOCH'] = c19_history.EPOCH
-    document = docs.render(_image_doc(), dpi=48)
+    document = docs.html(_image_doc()).render(dpi=48)
     first = document.write_pdf(pdf_identifier=b'x', dpi=48)
     second = document.write_pdf(pdf_identifier=b'x', dpi=48)
     return first != second
@@ -1444,8 +1758,9 @@ def finding_bleedbox_cap():
 
 class C19(PropCheck):
     id = 'C19'
-    extractors = (pdf_variants.generate, module_state.generate)
-    modules = ('WpModel.Props.C19', 'WpModel.Witness.C19', 'WpModel.Props.C19Pm2')
+    extractors = (pdf_variants.generate, module_state.generate, purity_inventory.generate)
+    modules = ('WpModel.Props.C19', 'WpModel.Props.C19Purity', 'WpModel.Props.C19State', 'WpModel.Witness.C19',
+               'WpModel.Props.C19Pm2')
     trusted_base = (
         'modelled, not verified: generate_pdf / add_links / make_bookmark_tree coordinates, Document.copy, '
         'resolve_links, get_image_from_uri + RasterImage cache writes, write_pdf sinks, the allocation skeleton of '
@@ -1478,15 +1793,25 @@ class C19(PropCheck):
             result = function(*args)
             timings[name] = round(time.time() - start, 2)
             return result
+        module_before = module_state_snapshot()
         timed('history', section_history, run)
         rendered = timed('docs', section_docs, run)
         timed('copy', section_copy, run, factory, rendered)
         timed('synthetic', section_synthetic, run, factory)
         timed('images', section_images, run, ImageWorld())
+        timed('disk-cache', section_disk_cache, run)
+        timed('write-state', section_write_state, run, factory, ImageWorld())
         timed('sinks', section_sinks, run)
         timed('render-state', section_render_state, run)
         timed('functions', section_functions, run, factory)
+        timed('module-state', section_module_state, run, module_before)
         run.extra['section_seconds'] = timings
+        never_hit = {}
+        for sec in run.sections:
+            missing = [tag for tag in EXPECTED_TAGS.get(sec.name, []) if not sec.tags.get(tag)]
+            if missing:
+                never_hit[sec.name] = missing
+        run.extra['branches_never_hit'] = never_hit
 
     # -- judge ------------------------------------------------------------------------------------------------
     def judge(self, d):
@@ -1504,6 +1829,9 @@ class C19(PropCheck):
             return self._judge_render_state(d)
         if section == 'resolve-links':
             return self._judge_resolve(d)
+        if section.startswith('module-state'):
+            return (f'rendering changed the module-level object {meta["object"][1]} of weasyprint/{meta["object"][0]} '
+                    '(process-lifetime state written after import)')
         if section.startswith('history') or section.startswith('three-sinks'):
             kind = meta.get('validation')
             return (f'{kind}: the same input gave {d["impl"]} where the reference is {d["model"]} '
@@ -1647,7 +1975,15 @@ class C19(PropCheck):
             if len(set(digests.values())) > 1:
                 add(f'the three targets of write_pdf got different bytes: {digests}',
                     {'options': repr(options), 'kind': 'sinks'}, 'sinks')
-        # 4 histories
+        # 4 fresh processes under eight hash seeds, on the jobs that carry set-valued / stateful features
+        if len(found) < 3:
+            for job in make_history_jobs(run.rng, 3)[:3]:
+                run.search_stats['evaluations'] += 8
+                what = hashseed_clause(job)
+                if what:
+                    add(what, {'job': job, 'kind': 'history'}, 'hashseed:' + what[:30])
+                    break
+        # 5 histories
         if len(found) < 3:
             jobs = make_history_jobs(run.rng, run.n(6, 30))
             reference = run_child(jobs, run.rng.randrange(1, 2 ** 31), list(range(len(jobs))))
